@@ -10,7 +10,10 @@ from common import *
 PKG = "prattx"
 if os.environ.get("VERIF_PRATTX_BINDIR"):
     # mutation self-test: use a prattx binary built against a scratch copy of /repo
-    common.BIN = os.environ["VERIF_PRATTX_BINDIR"]
+    # (VERIF_PRATTX_BINDIR = <scratch cargo target dir>/debug)
+    _scratch = os.path.dirname(os.environ["VERIF_PRATTX_BINDIR"].rstrip("/"))
+    _orig_target_dir = common.target_dir
+    common.target_dir = lambda pkg: _scratch if pkg == PKG else _orig_target_dir(pkg)
     common._built.add(PKG)
 HEADER = "Require Import SqlV.Base SqlV.PrecSpec SqlV.Pratt SqlV.SetOps SqlVGen.PrecTables.\n"
 DIALECTS = ["generic", "ansi", "bigquery", "clickhouse", "databricks", "duckdb", "hive", "mssql",
